@@ -40,18 +40,108 @@ func (nopLogger) Warning(string, ...interface{})   {}
 func (nopLogger) Warningf(string, ...interface{})  {}
 func (l nopLogger) With(...interface{}) log.Logger { return l }
 
-type mockConn struct{}
+// mockConn is the pool's p2p connection. It keeps the handlers the pool registers in Init (the announcement handler with its
+// gossip validator and the getTransactions RPC handler: that is how the harness drives onTransactionAnnoucement and
+// HandleRPCEndpointGetTransaction the way pkg/p2p does) and it can be told to FAIL the next Publish calls (fault injection:
+// topic not joined, context cancelled, oversized message ...).
+type mockConn struct {
+	mu        sync.Mutex
+	rpc       map[string]p2p.RPCHandler
+	evh       map[string]p2p.EventHandler
+	val       map[string]p2p.Validator
+	failNext  int // the next n Publish calls return an error
+	published int // Publish calls answered nil
+	failed    int // Publish calls answered with an error
+}
 
-func (mockConn) Broadcast(context.Context, string, []byte) error { return nil }
-func (mockConn) RegisterRPCHandler(string, p2p.RPCHandler, ...p2p.RPCHandlerOption) error {
+var errPublish = fmt.Errorf("scripted publish failure")
+
+func newMockConn() *mockConn {
+	return &mockConn{rpc: map[string]p2p.RPCHandler{}, evh: map[string]p2p.EventHandler{}, val: map[string]p2p.Validator{}}
+}
+
+func (c *mockConn) Broadcast(context.Context, string, []byte) error { return nil }
+func (c *mockConn) RegisterRPCHandler(name string, h p2p.RPCHandler, _ ...p2p.RPCHandlerOption) error {
+	c.mu.Lock()
+	c.rpc[name] = h
+	c.mu.Unlock()
 	return nil
 }
-func (mockConn) RegisterEventHandler(string, p2p.EventHandler, p2p.Validator) error { return nil }
-func (mockConn) ApplyPenalty(p2p.PeerID, int)                                       {}
-func (mockConn) RequestFrom(context.Context, p2p.PeerID, string, []byte) p2p.Response {
+func (c *mockConn) RegisterEventHandler(name string, h p2p.EventHandler, v p2p.Validator) error {
+	c.mu.Lock()
+	c.evh[name] = h
+	c.val[name] = v
+	c.mu.Unlock()
+	return nil
+}
+func (c *mockConn) ApplyPenalty(p2p.PeerID, int) {}
+func (c *mockConn) RequestFrom(context.Context, p2p.PeerID, string, []byte) p2p.Response {
 	return *p2p.NewResponse(0, "", nil, nil)
 }
-func (mockConn) Publish(context.Context, string, []byte) error { return nil }
+func (c *mockConn) Publish(context.Context, string, []byte) error {
+	c.mu.Lock()
+	defer c.mu.Unlock()
+	if c.failNext > 0 {
+		c.failNext--
+		c.failed++
+		return errPublish
+	}
+	c.published++
+	return nil
+}
+
+// armFailures: the next n Publish calls fail.
+func (c *mockConn) armFailures(n int) {
+	c.mu.Lock()
+	c.failNext = n
+	c.mu.Unlock()
+}
+
+// takeCounts disarms the connection and returns (and resets) the number of succeeded / failed Publish calls.
+func (c *mockConn) takeCounts() (published, failed int) {
+	c.mu.Lock()
+	defer c.mu.Unlock()
+	published, failed = c.published, c.failed
+	c.published, c.failed, c.failNext = 0, 0, 0
+	return
+}
+
+const peerA = p2p.PeerID("12D3KooWHarnessPeerA")
+
+// announce delivers one gossip message of the transaction announcement topic the way pkg/p2p does: the registered validator first
+// (the handler relies on it: it panics on data the validator would have rejected), then the registered handler.
+// Returns false when the validator rejected the message.
+func (c *mockConn) announce(data []byte) bool {
+	c.mu.Lock()
+	h, v := c.evh[txpool.RPCEventPostTransactionAnnouncement], c.val[txpool.RPCEventPostTransactionAnnouncement]
+	c.mu.Unlock()
+	if v != nil {
+		if v(context.Background(), p2p.NewMessage(data)) != p2p.ValidationAccept {
+			return false
+		}
+	}
+	h(p2p.NewEvent(peerA, txpool.RPCEventPostTransactionAnnouncement, data))
+	return true
+}
+
+// rpcWriter is the p2p.ResponseWriter of a getTransactions request.
+type rpcWriter struct {
+	writes int
+	data   []byte
+	err    error
+}
+
+func (w *rpcWriter) Write(b []byte) { w.writes++; w.data = b }
+func (w *rpcWriter) Error(e error)  { w.err = e }
+
+func (c *mockConn) getTransactions(data []byte) *rpcWriter {
+	c.mu.Lock()
+	h := c.rpc[txpool.RPCEndpointGetTransactions]
+	c.mu.Unlock()
+	w := &rpcWriter{}
+	h(w, &p2p.Request{ID: "1", Procedure: txpool.RPCEndpointGetTransactions, Data: data, PeerID: peerA})
+	return w
+}
 
 // verifier answers
 const (
@@ -59,9 +149,12 @@ const (
 	ansPending
 	ansInvalid
 	ansErr
+	// answers that change between consultations (the announcement handler asks once, Add asks again; a promotion pass asks again):
+	ansOKThenInvalid // first consultation after the answer was set: ok, afterwards invalid
+	ansErrThenOK     // first consultation after the answer was set: error, afterwards ok
 )
 
-var ansNames = []string{"ok", "pending", "invalid", "err"}
+var ansNames = []string{"ok", "pending", "invalid", "err", "ok-then-invalid", "err-then-ok"}
 
 type vcall struct {
 	id  string
@@ -69,14 +162,19 @@ type vcall struct {
 }
 
 // verifier is the scripted ABI: per transaction ID an answer (default ok); it logs every consultation.
+// Every logged consultation carries the answer actually given (ok / pending / invalid / err).
 type verifier struct {
 	mu    sync.Mutex
 	ans   map[string]int
+	asked map[string]int           // consultations since the answer was set (changing answers)
+	slow  map[string]time.Duration // answer only after a pause (slow application)
 	calls []vcall
 	hook  func(id string) // called (outside mu) before answering; used to interleave an operation into a promotion pass
 }
 
-func newVerifier() *verifier { return &verifier{ans: map[string]int{}} }
+func newVerifier() *verifier {
+	return &verifier{ans: map[string]int{}, asked: map[string]int{}, slow: map[string]time.Duration{}}
+}
 
 func (v *verifier) VerifyTransaction(req *labi.VerifyTransactionRequest) (*labi.VerifyTransactionResponse, error) {
 	id := string(req.Transaction.ID)
@@ -87,7 +185,26 @@ func (v *verifier) VerifyTransaction(req *labi.VerifyTransactionRequest) (*labi.
 		hook(id)
 	}
 	v.mu.Lock()
+	pause := v.slow[id]
+	v.mu.Unlock()
+	if pause > 0 {
+		time.Sleep(pause)
+	}
+	v.mu.Lock()
 	a := v.ans[id]
+	switch a {
+	case ansOKThenInvalid:
+		a = ansInvalid
+		if v.asked[id] == 0 {
+			a = ansOK
+		}
+	case ansErrThenOK:
+		a = ansOK
+		if v.asked[id] == 0 {
+			a = ansErr
+		}
+	}
+	v.asked[id]++
 	v.calls = append(v.calls, vcall{id, a})
 	v.mu.Unlock()
 	switch a {
@@ -104,6 +221,16 @@ func (v *verifier) VerifyTransaction(req *labi.VerifyTransactionRequest) (*labi.
 func (v *verifier) set(id string, a int) {
 	v.mu.Lock()
 	v.ans[id] = a
+	v.asked[id] = 0
+	v.mu.Unlock()
+}
+func (v *verifier) setSlow(id string, d time.Duration) {
+	v.mu.Lock()
+	if d == 0 {
+		delete(v.slow, id)
+	} else {
+		v.slow[id] = d
+	}
 	v.mu.Unlock()
 }
 func (v *verifier) get(id string) int {
@@ -142,16 +269,22 @@ func (c cfgT) String() string {
 }
 
 func newPool(c cfgT, v *verifier) *txpool.TransactionPool {
+	p, _ := newPoolConn(c, v)
+	return p
+}
+
+func newPoolConn(c cfgT, v *verifier) (*txpool.TransactionPool, *mockConn) {
+	conn := newMockConn()
 	p := txpool.NewTransactionPool(&txpool.TransactionPoolConfig{
 		MaxTransactions:             c.Max,
 		MaxTransactionsPerAccount:   c.PerAcc,
 		MinEntranceFeePriority:      c.MinP,
 		MinReplacementFeeDifference: c.Diff,
 	})
-	if err := p.Init(context.Background(), nopLogger{}, (*db.DB)(nil), (*blockchain.Chain)(nil), mockConn{}, v); err != nil {
+	if err := p.Init(context.Background(), nopLogger{}, (*db.DB)(nil), (*blockchain.Chain)(nil), conn, v); err != nil {
 		panic(err)
 	}
-	return p
+	return p, conn
 }
 
 type txSpec struct {
@@ -249,13 +382,11 @@ func guard(f func()) (int, string) { return startGuard(f).wait() }
 
 type guardH struct {
 	done     chan struct{}
-	gid      int64
 	panicked string
 }
 
 func startGuard(f func()) *guardH {
 	h := &guardH{done: make(chan struct{})}
-	gidCh := make(chan int64, 1)
 	go func() {
 		defer close(h.done)
 		defer func() {
@@ -264,10 +395,8 @@ func startGuard(f func()) *guardH {
 				h.panicked = fmt.Sprintf("panic: %v\n%s", r, buf[:runtime.Stack(buf, false)])
 			}
 		}()
-		gidCh <- curGID()
 		guardedBody(f)
 	}()
-	h.gid = <-gidCh
 	return h
 }
 
@@ -294,7 +423,7 @@ func (h *guardH) wait() (int, string) {
 			evidence++
 			if evidence >= 2 {
 				rs := relevantStacks(dump)
-				abandon(h.gid, dump)
+				abandon(dump)
 				return callDeadlock, rs
 			}
 		} else {
@@ -308,18 +437,19 @@ func (h *guardH) wait() (int, string) {
 		if time.Since(start) > wdLimit {
 			dump := allStacks()
 			rs := relevantStacks(dump)
-			abandon(h.gid, dump)
+			abandon(dump)
 			return callTimeout, rs
 		}
 	}
 }
 
-func abandon(gid int64, dump string) {
+func abandon(dump string) {
 	abandonedMu.Lock()
 	defer abandonedMu.Unlock()
-	abandonedGIDs[gid] = true
 	// everything that is inside the pool right now belongs to the abandoned pool (sequential use: one pool at a time;
-	// the concurrent check abandons all its workers at once)
+	// the concurrent check abandons all its workers at once). The watched goroutine itself needs no entry of its own: later dumps
+	// only look at goroutines inside the pool, and if it is inside it is marked here. (It used to report its goroutine ID when it
+	// started - a runtime.Stack call and a scheduling round trip per watched call, ~9 % of the run time.)
 	for _, g := range parseDump(dump) {
 		if g.inPool {
 			abandonedGIDs[g.id] = true
@@ -378,11 +508,15 @@ var parkedStates = map[string]bool{
 // frame on top and therefore do NOT count), so only another goroutine inside the pool could receive, and all of those are parked.
 // Channel RECEIVES never count (a timer could serve them). With a channel send among the parked ones the RWMutex requirement is
 // replaced by "a send inside the pool or the RWMutex".
+//
+// Extension (event subscribers): a pool goroutine blocked in the channel send of pkg/event (the pool publishing an event) counts as
+// parked only if no registered subscriber can take the message, see subscribersCannotReceive.
 func deadlockEvidence(dump string) bool {
 	abandonedMu.Lock()
 	defer abandonedMu.Unlock()
-	n, onRW := 0, false
-	for _, g := range parseDump(dump) {
+	n, onRW, evSend := 0, false, false
+	gs := parseDump(dump)
+	for _, g := range gs {
 		if !g.inPool || abandonedGIDs[g.id] {
 			continue
 		}
@@ -394,6 +528,11 @@ func deadlockEvidence(dump string) bool {
 			onRW = true
 			continue
 		}
+		if strings.HasPrefix(g.state, "chan send") && eventSend(g.stack) {
+			n++
+			evSend = true
+			continue
+		}
 		if !parkedStates[g.state] {
 			return false
 		}
@@ -402,6 +541,12 @@ func deadlockEvidence(dump string) bool {
 			onRW = true
 		}
 	}
+	if evSend {
+		if !subscribersCannotReceive(gs) {
+			return false
+		}
+		onRW = true
+	}
 	return n > 0 && onRW
 }
 
@@ -409,6 +554,41 @@ func deadlockEvidence(dump string) bool {
 func sendInsidePool(stack string) bool {
 	lines := strings.SplitN(stack, "\n", 3)
 	return len(lines) >= 2 && strings.Contains(lines[1], "/pkg/txpool.")
+}
+
+// eventSend: the goroutine is blocked in the channel send of pkg/event's Publish / Emit, called by a pool function (the caller
+// checked that the stack has a pkg/txpool frame): the pool is delivering an event to its subscribers.
+func eventSend(stack string) bool {
+	lines := strings.SplitN(stack, "\n", 3)
+	return len(lines) >= 2 && strings.Contains(lines[1], "/pkg/event.(*EventEmitter).")
+}
+
+// subscribersCannotReceive: extension "event subscribers". A pool goroutine blocked in an event send can only be released by the
+// subscriber it is sending to. All subscription channels of the pool under test belong to the registered harness subscribers, whose
+// only blocking receive is the one on their subscription. A subscriber seen in that receive (state "chan receive" / "select", not
+// inside the pool) cannot be the one the send is waiting for (the unbuffered rendezvous would have completed); so the addressee is
+// among the subscribers that are inside the pool - and those were all found parked on the pool's locks (or in an event send
+// themselves) by the caller. If every live subscriber is in one of these two situations and at least one is inside the pool, nobody
+// can ever take the message. Any subscriber in another state (sleeping before its callback, runnable, running) => no evidence (yet).
+func subscribersCannotReceive(gs []gInfo) bool {
+	live, allKnown := liveSubGIDs()
+	if !allKnown { // a subscriber goroutine that has not run yet: it will take messages once it does
+		return false
+	}
+	inside := 0
+	for _, g := range gs {
+		if !live[g.id] {
+			continue
+		}
+		if g.inPool {
+			inside++ // parked: checked by the caller (every goroutine inside the pool is)
+			continue
+		}
+		if g.state != "chan receive" && g.state != "select" {
+			return false
+		}
+	}
+	return inside > 0
 }
 
 func relevantStacks(dump string) string {
